@@ -406,6 +406,7 @@ def check(src, rep):
                 scan_path(p, tv, fname, sink, start)
     # ---- the P1 decoder: partial built-ins and explicit raises, by AST census with the handler
     _p1_escapes(rep, M, src, sink_for("P1", "dlde"))
+    n_sites += _p1_partial_ops(rep, M, sink_for("P1", "dlde"))
     if n_esc == 0:
         rep.ok("R1", f"{len(table)} table decoders", f"{n_sites} lambda sites / normaliser paths analysed: every exception class that can leave a decoder ({sorted(caught_memo)}) is caught by both decode methods (oracle decoders raising each class, E-ABS)")
     rep.count("analysed_sites", n_sites)
@@ -476,15 +477,36 @@ def _p1_escapes(rep, M, src, sink):
                 cls = ast.unparse(n.exc.func if isinstance(n.exc, ast.Call) else n.exc)
                 if not caught(n, cls):
                     sink(Escape(cls, f"{q.split('.', 1)[1]}:raise", n.lineno, f"explicit raise {cls}"))
-            # int(float(text) * k): OverflowError for 'inf' / huge exponents
-            if isinstance(n, ast.Call) and isinstance(n.func, ast.Name) and n.func.id == "int" and n.args:
-                inner = n.args[0]
-                if any(isinstance(x, ast.Call) and isinstance(x.func, ast.Name) and x.func.id == "float" for x in ast.walk(inner)):
-                    if not caught(n, "OverflowError"):
-                        sink(Escape("OverflowError", f"{q.split('.', 1)[1]}:int(float())", n.lineno, "int(float(text) ...) overflows for 'inf' or huge exponents in the transmitted text"))
             # regex match on a possibly-None address etc. is type safety (not decided)
             if isinstance(n, ast.Assert) and not caught(n, "AssertionError"):
                 sink(Escape("AssertionError", f"{q.split('.', 1)[1]}:assert", n.lineno, "assert on wire-derived data"))
+
+
+def _p1_partial_ops(rep, M, sink):
+    """partial built-in operations of the P1 content decoder on the transmitted text (E-ABS): decode_p1_readout_content is interpreted on abstract
+    data sets (every unit class, known / unknown / clock address) with the transmitted number symbolic; each conversion that can raise for some
+    text is recorded together with the handlers dynamically enclosing it, wherever (helper, table entry, inline) it is written"""
+    from sa.abseval import AbsEval, AObj, Sym
+    from sa.decoders import obis_hook
+    dc, pc = M.funcs.get("dlde.decode_p1_readout_content"), M.funcs.get("dlde.parse_p1_readout_content")
+    if dc is None or pc is None:
+        raise Undecided("anchor vanished: dlde.decode_p1_readout_content / parse_p1_readout_content")
+    VAL = Sym("VAL", "str")
+    n = 0
+    for unit in ("kWh", "kW", "kvar", "kvarh", "V", "A", "var", "varh", "m3", None):
+        for addr in ("1-0:1.8.0", "0-0:1.0.0", "1-0:250.250.250"):
+            A = AbsEval(M, hooks={"Obis.from_string": obis_hook})
+            items = [AObj("DataSet", {"address": addr, "values": [AObj("DataSetValue", {"value": VAL, "unit": unit}, cls_key=("dlde", "DataSetValue"))]}, cls_key=("dlde", "DataSet"))]
+            A.func_hooks[("dlde", pc.node.name)] = lambda args, kw, items=items: list(items)
+            r = A.apply(dc, [b"1-0:1.8.0(1*kWh)\r\n"])
+            n += 1
+            if r[0] == "undecided":
+                raise Undecided(f"decode_p1_readout_content outside the interpreted subset (unit {unit!r}, address {addr}): {r[1]}")
+            for cls, line, text in A.__dict__.get("may", []):
+                sink(Escape(cls, f"decode_p1_readout_content:{text.split(' of ')[0]}", line, f"{text} (unit {unit!r}, address {addr})"))
+            if r[0] == "raise" and r[1] not in ("ValueError",):
+                sink(Escape(r[1], "decode_p1_readout_content:raise", dc.node.lineno, f"decoding a well-formed data set raises {r[1]} (unit {unit!r}, address {addr})"))
+    return n
 
 
 def _scanner(rep, M, src):
@@ -550,7 +572,7 @@ def _scanner(rep, M, src):
                     if newv is None:
                         continue
                     entry = E.ev(ast.Name(id=c, ctx=ast.Load()), Path(), fr)
-                    if _strictly_greater(newv, entry, p):
+                    if _strictly_greater(newv, entry, p, E, f):
                         progressed = True
                     if newv[0] == "sub" and newv[1][0] in ("call", "calldyn") and newv[2] == ("c", 0):
                         # position returned by the helper: -1 or a value after at least one strictly increasing update
@@ -570,20 +592,109 @@ def _scanner(rep, M, src):
     rep.floor("scanner loops", n_loops, 2)
 
 
-def _strictly_greater(newv, oldv, p):
-    """newv = find(...)+k (k >= 1) with the find result checked != -1 on the path, searched from oldv; or oldv + k"""
-    if newv[0] == "op" and newv[1] == "Add":
-        a, b = newv[2], newv[3]
-        if b[0] != "c":
-            a, b = b, a
-        if b[0] == "c" and isinstance(b[1], int) and b[1] >= 1:
-            if a == oldv:
+class Order:
+    """a small prover of `a > b` / `a >= b` between integer-valued symbolic values on one path.  Facts: the path's comparisons; str.find/index/rfind
+    results are -1 or >= their start argument; a variable assigned in an inner loop is, after the loop, >= its value before the loop when every
+    iteration of that loop leaves it >= (checked recursively on the inner loop's own paths); constants."""
+
+    def __init__(self, p, E=None, f=None, depth=0):
+        self.p, self.E, self.f, self.depth = p, E, f, depth
+        self.facts = []  # (x, y, strict): x > y or x >= y
+        for g, pol, _ in p.guards:
+            g = strip_epoch(g)
+            if g[0] != "cmp" or len(g) < 4:
+                continue
+            op, x, y = g[1], g[2], g[3]
+            rel = {"Gt": (x, y, True), "GtE": (x, y, False), "Lt": (y, x, True), "LtE": (y, x, False)}.get(op) if pol else \
+                {"Gt": (y, x, False), "GtE": (y, x, True), "Lt": (x, y, False), "LtE": (x, y, True)}.get(op)
+            if rel:
+                self.facts.append(rel)
+            if op == "Eq" and pol or op == "NotEq" and not pol:
+                self.facts += [(x, y, False), (y, x, False)]
+        self.pre = {}
+        for e in p.effects:
+            if e[0] == "loop" and len(e) > 3:
+                self.pre[e[2]] = dict(e[3])
+        self._mono = {}
+
+    def not_minus_one(self, t):
+        """the path establishes that the find result t is not -1"""
+        for g, pol, _ in self.p.guards:
+            g = strip_epoch(g)
+            if g[0] == "cmp" and g[2] == t:
+                if (g[1] == "Eq" and g[3] == ("c", -1) and not pol) or (g[1] == "NotEq" and g[3] == ("c", -1) and pol) or (g[1] == "Lt" and g[3] == ("c", 0) and not pol) or \
+                        (g[1] == "GtE" and g[3] == ("c", 0) and pol) or (g[1] == "Gt" and g[3] == ("c", -1) and pol):
+                    return True
+        return any(x == t and self.ge(y, ("c", -1), 3) and (strict or self.ge(y, ("c", 0), 3)) for x, y, strict in self.facts)
+
+    def lower_bounds(self, a):
+        """[(y, strict)]: a > y or a >= y"""
+        out = [(y, st) for x, y, st in self.facts if x == a]
+        if a[0] == "op" and a[1] in ("Add", "Sub") and len(a) == 4:
+            x, c = a[2], a[3]
+            if a[1] == "Add" and x[0] == "c" and c[0] != "c":
+                x, c = c, x
+            if c[0] == "c" and isinstance(c[1], int) and not isinstance(c[1], bool):
+                k = c[1] if a[1] == "Add" else -c[1]
+                if k >= 1:
+                    out.append((x, True))
+                elif k == 0:
+                    out.append((x, False))
+        if a[0] == "call" and isinstance(a[1], str) and a[1].endswith((".find", ".index", ".rfind")) and len(a[2]) >= 3 and (a[1].endswith(".index") or self.not_minus_one(a)):
+            out.append((a[2][2], False))
+        if a[0] == "havoc" and a[2] in self.pre and a[1] in self.pre[a[2]] and self.monotone(a[2], a[1]):
+            out.append((self.pre[a[2]][a[1]], False))
+        return out
+
+    def monotone(self, line, var):
+        key = (line, var)
+        if key not in self._mono:
+            self._mono[key] = False
+            if self.E is not None and self.f is not None and self.depth < 3:
+                wl = next((n for n in ast.walk(self.f.node) if isinstance(n, (ast.While, ast.For)) and n.lineno == line), None)
+                if wl is not None:
+                    try:
+                        E2 = Engine(self.E.M, inline_depth=0)
+                        paths, fr = loop_paths_at(E2, self.f, wl)
+                        entry = E2.ev(ast.Name(id=var, ctx=ast.Load()), Path(), fr)
+                        ok = True
+                        for q in paths:
+                            if q.status not in ("run", "continue", "break"):
+                                continue
+                            newv = q.store.get(("l", fr["id"], var), entry)
+                            if not Order(q, E2, self.f, self.depth + 1).ge(newv, entry):
+                                ok = False
+                        self._mono[key] = ok
+                    except Exception:
+                        self._mono[key] = False
+        return self._mono[key]
+
+    def ge(self, a, b, fuel=8):
+        return self.rel(a, b, False, fuel)
+
+    def gt(self, a, b, fuel=8):
+        return self.rel(a, b, True, fuel)
+
+    def rel(self, a, b, strict, fuel):
+        a, b = strip_epoch(a), strip_epoch(b)
+        if a == b:
+            return not strict
+        if a[0] == "c" and b[0] == "c" and isinstance(a[1], int) and isinstance(b[1], int):
+            return a[1] > b[1] if strict else a[1] >= b[1]
+        if fuel <= 0:
+            return False
+        for y, st in self.lower_bounds(a):
+            if self.rel(y, b, strict and not st, fuel - 1):
                 return True
-            if a[0] == "call" and str(a[1]).endswith(".find"):
-                checked = any(g[0] == "cmp" and g[2] == a and ((g[1] == "Eq" and g[3] == ("c", -1) and not pol) or (g[1] == "Lt" and g[3] == ("c", 0) and not pol)) for g, pol, _ in p.guards)
-                from_old = oldv in a[2] or any(x == oldv for x in a[2])
-                return checked and from_old
-    return False
+        # b + k <= ... : b = y - k etc. (upper bounds of b)
+        for x, y, st in self.facts:
+            if y == b and x != a and self.rel(a, x, strict and not st, fuel - 1):
+                return True
+        return False
+
+
+def _strictly_greater(newv, oldv, p, E=None, f=None):
+    return Order(p, E, f).gt(newv, oldv)
 
 
 def _helper_progress(h):
